@@ -29,6 +29,9 @@ type l3Case struct {
 	lastDO   bool
 	queried  bool
 	optTags  string
+	// legitFail: some earlier reply of this case was a SERVFAIL not known to be the budget's; a
+	// failure served from the cache later may then be that one, legitimately shared
+	legitFail bool
 	newF     []string // the fields of the `l3 new` op (to rebuild the case for a retry)
 }
 
@@ -224,6 +227,8 @@ func l3Query(f []string) vlib.Res {
 	c.lastOver = over
 	if over {
 		tags += ",overbudget"
+	} else if r.Msg.Rcode == dns.RcodeServerFailure {
+		c.legitFail = true
 	}
 	if v != "" {
 		return vlib.Res{Impl: replyBrief(r), Oracle: v, Tags: tags}
@@ -288,13 +293,17 @@ func l3Again(f []string) vlib.Res {
 	if v != "" {
 		return vlib.Res{Impl: replyBrief(r), Oracle: v, Tags: tags}
 	}
-	if prevOver && c.topo.Honest && c.topo.Answerable && r.Msg.Rcode == dns.RcodeServerFailure && r.packets() == 0 {
-		// every name in this world resolves and no authority ever fails, so the only failure that
-		// could have been cached is the budget's
+	if prevOver && !c.legitFail && c.topo.Answerable && r.Msg.Rcode == dns.RcodeServerFailure && r.packets() == 0 {
+		// the name resolves for a resolver that is allowed to ask (at least one healthy authority per
+		// zone); the previous tree ran out of budget before it could, so whatever failure is served here
+		// without a single upstream packet — per-question or zone-wide — was published by the budget
 		return vlib.Res{Impl: replyBrief(r), Oracle: "FAIL sig=l3/again/budget-failure-served-to-other-client", Tags: tags + ",afterover"}
 	}
 	if prevOver {
 		tags += ",afterover"
+	}
+	if !over && r.Msg.Rcode == dns.RcodeServerFailure {
+		c.legitFail = true
 	}
 	return vlib.Res{Impl: replyBrief(r), Oracle: "ok", Tags: tags}
 }
